@@ -150,3 +150,76 @@ Definition simp_stats (cs : list mysql_case) : nat * nat * nat :=
                           then if simp_plan_full (mc_base c) (mc_actions c) then (S r, S f, k)
                                else if simp_plan_ok (mc_base c) (mc_actions c) then (S r, f, S k) else (S r, f, k)
                           else (r, f, k)) cs (0, 0, 0)%nat.
+
+(* ---------- theorem coverage before / after widening the hypotheses ---------- *)
+(* ModifyColumn* actions on existing columns that replay: (total, under the hypothesis of C04_modify_restates_all,
+   in the class C04-comment-lost-on-modify, of which THE IMPLEMENTATION's statements for that action contain a
+   MODIFY COLUMN without a COMMENT clause) *)
+Definition modify_without_comment (st : list stmt) : bool :=
+  existsb (fun x => match x with SModifyColumn _ d => is_none (cd_comment d) | _ => false end) st.
+Fixpoint modify_all_stats (s : schema) (acts : list action) (impl : list (list stmt)) : nat * nat * nat * nat :=
+  match acts with
+  | [] => (0, 0, 0, 0)%nat
+  | a :: r =>
+      let '(n, h, l, w) := modify_all_stats (step s a) r (tl impl) in
+      match modify_target a with
+      | Some (t, c) =>
+          match lookup_column s t c, apply_action s a with
+          | Some col, Ok _ =>
+              let lost := p_comment_lost s a in
+              (S n, if modify_all_hyp s a t c col then S h else h, if lost then S l else l,
+               if (lost && modify_without_comment (hd [] impl))%bool then S w else w)
+          | _, _ => (n, h, l, w)
+          end
+      | None => (n, h, l, w)
+      end
+  end.
+(* actions of a plan under the lemmas proved up to round 3 *)
+Fixpoint sim_stats_plan_r3 (s : schema) (acts : list action) : nat * nat :=
+  match acts with
+  | [] => (0, 0)%nat
+  | a :: r => let '(n, k) := sim_stats_plan_r3 (step s a) r in (S n, if sim_proved_for_r3 s a then S k else k)
+  end.
+(* ((modify total, under restates_all, comment-lost, confirmed on the implementation's SQL),
+    (actions of judged migrations under a lemma BEFORE, judged migrations proved as a whole BEFORE,
+     DeleteColumn actions: total / before / after, RenameColumn actions: total / before / after);
+   cover_stats appends: judged migrations outside every known class, of which proved as a whole BEFORE / AFTER *)
+Fixpoint kind_stats (s : schema) (acts : list action) : (nat * nat * nat) * (nat * nat * nat) :=
+  match acts with
+  | [] => ((0, 0, 0), (0, 0, 0))%nat
+  | a :: r =>
+      let '((d, db, da), (n, nb, na)) := kind_stats (step s a) r in
+      match a with
+      | DeleteColumn _ _ => ((S d, if sim_proved_for_r3 s a then S db else db, if sim_proved_for s a then S da else da), (n, nb, na))
+      | RenameColumn _ _ _ => ((d, db, da), (S n, if sim_proved_for_r3 s a then S nb else nb, if sim_proved_for s a then S na else na))
+      | _ => ((d, db, da), (n, nb, na))
+      end
+  end.
+(* a judged migration outside every known class is proved AS A WHOLE by a plan-level theorem of Properties/C04.v:
+   C04_Sim_plan_proved_kinds, C04_SimP_plan_equiv or C04_SimP_plan_checked; [_r3]: with the one-step lemmas of round 3 only *)
+Fixpoint ghost_r3_ok (v : schema) (acts : list action) : bool :=
+  match acts with
+  | [] => true
+  | a :: r => (sim_proved_for_r3 v (ghost_action a) && ghost_r3_ok (step v (ghost_action a)) r)%bool
+  end.
+Definition whole_proved (c : mysql_case) : bool :=
+  (whole_plain c || simp_plan_full (mc_base c) (mc_actions c) || simp_plan_ok (mc_base c) (mc_actions c))%bool.
+Definition whole_proved_r3 (c : mysql_case) : bool :=
+  ((let '(n, k) := sim_stats_plan_r3 (mc_base c) (mc_actions c) in Nat.eqb n k)
+   || ((simp_plan_full (mc_base c) (mc_actions c) || simp_plan_ok (mc_base c) (mc_actions c))
+       && ghost_r3_ok (mc_base c) (mc_actions c)))%bool.
+Definition cover_stats (cs : list mysql_case) : list nat :=
+  fold_left (fun acc c =>
+               let impl := match mc_impl c with IOk l => l | _ => [] end in
+               let '(n, h, l, w) := modify_all_stats (mc_base c) (mc_actions c) impl in
+               let m := [n; h; l; w] in
+               let j := if judged (mc_base c) (mc_actions c)
+                        then let '(a, k) := sim_stats_plan_r3 (mc_base c) (mc_actions c) in
+                             let '((d, db, da), (rn, rb, ra)) := kind_stats (mc_base c) (mc_actions c) in
+                             let o := negb (in_known_class (mc_base c) (mc_actions c)) in
+                             [k; if Nat.eqb a k then 1 else 0; d; db; da; rn; rb; ra;
+                              if o then 1 else 0; if (o && whole_proved_r3 c)%bool then 1 else 0;
+                              if (o && whole_proved c)%bool then 1 else 0]%nat
+                        else [0; 0; 0; 0; 0; 0; 0; 0; 0; 0; 0]%nat in
+               map (fun p => (fst p + snd p)%nat) (combine acc (m ++ j)))
+            cs [0; 0; 0; 0; 0; 0; 0; 0; 0; 0; 0; 0; 0; 0; 0]%nat.
